@@ -427,7 +427,12 @@ def check_library(case):
         return outcome(False, "library-refused", symptom="library-function-not-translated", nontrivial=True, detail=f"no expression | {txt}")
     uniq = list(dict.fromkeys(symnames))
     compared = 0
-    for point in it.product(LIB_GRID, repeat=len(uniq)):
+    try:
+        lam = sympy.lambdify([sympy.Symbol(n) for n in uniq], expr, modules=["math"])
+    except Exception:  # noqa: BLE001
+        lam = None
+    grid = LIB_GRID if len(uniq) <= 4 else LIB_GRID[:3] if len(uniq) <= 6 else LIB_GRID[1:3]
+    for point in it.product(grid, repeat=len(uniq)):
         env = dict(zip(uniq, point, strict=True))
         vals = [env[n] for n in symnames]
         try:
@@ -436,7 +441,14 @@ def check_library(case):
             continue
         if math.isnan(want) or math.isinf(want):
             continue
-        got = evaluate_expr(expr, uniq, [env[n] for n in uniq])
+        got = None
+        if lam is not None:
+            try:
+                got = float(lam(*[env[n] for n in uniq]))
+            except Exception:  # noqa: BLE001
+                got = None
+        if got is None or not _close(got, want):
+            got = evaluate_expr(expr, uniq, [env[n] for n in uniq])  # exact substitution decides
         compared += 1
         if not _close(got, want):
             return outcome(False, "unsound", symptom="unsound:library", nontrivial=True, detail=f"{txt}: f{tuple(vals)}={want} but expression {expr} gives {got}")
